@@ -30,6 +30,9 @@ type PartSpec struct {
 	Content []byte  `json:"content"`
 	Fails   bool    `json:"fails,omitempty"`
 	Deleted bool    `json:"deleted,omitempty"` // Part.Delete() after the part was added
+	// ViaString: the part is added through the string entry points (SetBodyString / AddAlternativeString), whatever
+	// the API variant of the message says
+	ViaString bool `json:"via_string,omitempty"`
 	chunks  [][]byte
 }
 
@@ -412,6 +415,9 @@ func (sp *MsgSpec) Build() (*mail.Msg, []string, error) {
 		}
 		ct := mail.ContentType(p.CType)
 		variant := pick(4)
+		if p.ViaString && !p.Fails {
+			variant = 1
+		}
 		var terr error
 		switch {
 		case variant == 1 && !p.Fails:
@@ -827,6 +833,8 @@ var genKeys = []string{"User-Agent", "X-Mailer", "Date", "Message-ID", "MIME-Ver
 var goodAddrs = []string{"alice@example.com", "Bob <bob@example.org>", "\"Last, First\" <lf@example.net>", "Jürgen Müller <jm@example.de>", "\"quoted local\"@example.com",
 	"<carol@example.com>", "dave+tag@sub.example.co.uk", "\"a b>c\"@example.com", "Eve (comment) <eve@example.com>", "=?UTF-8?q?Enc?= <enc@example.com>",
 	"\"Very Long Display Name That Goes On And On And On For Quite A While Indeed\" <long@example.com>",
+	"reply+4f8a1c7e9b2d4a6f8c0e1a3b5d7f9e1c3a5b7d9f1e3c5a7b9d1f3e5a7c9b1d3f@bounces.mailing-list-provider.example.com",
+	"Someone With A Display Name <a-rather-long-local-part-that-goes-on.and-on.and-on.until-it-is-more-than-seventy-five-characters-long@sub.domain.example.org>",
 	"عل\u200cرضا@example.com", "soft\u00adhyphen@example.com", "Zero\u200bWidth <zw\u200bsp@example.com>", "\"bidi \u202e name\" <bi\u200ddi@example.com>", "ümlaut@example.com", "bom\ufeff@example.com",
 	"\"Zoë \\\\ Backslash\" <zoe@example.com>", "\"Quote \\\" and \\\\ in ASCII\" <q@example.com>", "\"名前 \\\\\" <cjk@example.com>"}
 var badAddrs = []string{"invalid", "", "@", "a@", "two@@example.com", "x y z", "<>", "a@b@c"}
@@ -1150,4 +1158,69 @@ func (sp *MsgSpec) shape() string {
 		}
 	}
 	return fmt.Sprintf("p%d-e%d-a%d", min(len(sp.Parts), 3), min(ne, 2), min(na, 2))
+}
+
+// scaleUp makes one dimension of a generated message large: sizes beyond every buffer of the writer and the
+// encoders (4 KiB, 32 KiB, 64 KiB), counts beyond small fixed capacities. Used for a few cases per run.
+func scaleUp(r *Rng, spc *MsgSpec) string {
+	text := func(n int) []byte {
+		var b bytes.Buffer
+		for b.Len() < n {
+			l := []int{0, 1, 20, 75, 76, 77, 200, 997, 998, 999, 1000, 5000}[r.Intn(12)]
+			for k := 0; k < l; k++ {
+				if k%9 == 8 {
+					b.WriteByte(' ')
+				} else {
+					b.WriteByte(byte('a' + (k+b.Len())%26))
+				}
+			}
+			b.WriteString("\r\n")
+		}
+		return b.Bytes()
+	}
+	switch r.Intn(5) {
+	case 0:
+		if len(spc.Parts) > 0 {
+			i := r.Intn(len(spc.Parts))
+			spc.Parts[i].Content = text([]int{4095, 4096, 4097, 32768, 65536, 70000, 150000, 300000}[r.Intn(8)])
+			spc.Parts[i].chunks = nil
+			return "large-part"
+		}
+		fallthrough
+	case 1:
+		n := []int{4096, 32767, 32768, 65537, 200000, 1 << 20}[r.Intn(6)]
+		big := make([]byte, n)
+		for j := range big {
+			big[j] = byte(r.Intn(256))
+		}
+		if len(spc.Files) == 0 {
+			spc.Files = append(spc.Files, FileSpec{Attach: true, Name: "big.bin"})
+		}
+		spc.Files[r.Intn(len(spc.Files))].Content = big
+		return "large-file"
+	case 2:
+		n := 17 + r.Intn(30)
+		for k := 0; k < n; k++ {
+			spc.Files = append(spc.Files, FileSpec{Attach: k%3 != 0, Name: fmt.Sprintf("file-%03d.txt", k), Content: []byte(fmt.Sprintf("content of file %d\r\n", k))})
+		}
+		return "many-files"
+	case 3:
+		v := strings.Repeat("w", []int{998, 1000, 3000}[r.Intn(3)])
+		if r.Bool() {
+			var ws []string
+			for k := 0; k < 300; k++ {
+				ws = append(ws, fmt.Sprintf("word%d", k))
+			}
+			v = strings.Join(ws, " ")
+		}
+		spc.Gen = append(spc.Gen, GenOp{Key: "X-Custom", Values: []string{v}})
+		return "long-header"
+	default:
+		a := AddrOp{Kind: 2, Mode: "set"}
+		for k := 0; k < 70+r.Intn(80); k++ {
+			a.Values = append(a.Values, fmt.Sprintf("Recipient Number %d <rcpt%03d@example.com>", k, k))
+		}
+		spc.Addr = append(spc.Addr, a)
+		return "many-recipients"
+	}
 }
